@@ -48,6 +48,41 @@ pub fn check_bytes(enc: &'static Encoding, algo: Algo, bytes: &[u8], drv: &mut D
             }
         }
     }
+    // the complete stream through an output buffer that is shorter than the input (the caller loop
+    // re-pushes after every OutputFull): same oracle.  Capacities vary with the length so that
+    // all residues modulo the 16-unit stride occur.
+    if bytes.len() >= 6 && (bytes.len() + bytes[1] as usize + bytes[bytes.len() - 2] as usize) % 3 == 0 {
+        let n = bytes.len();
+        // one of four variants per stream (selected by content), to keep the cost at one extra run
+        let variants = [(Sink::Utf8, false, Sink::Utf8.min_cap() + (n * 7 + 3) % 29), (Sink::Utf16, true, Sink::Utf16.min_cap() + (n * 5 + 1) % 31), (Sink::Utf8, true, 17 + n % 47), (Sink::Utf16, false, 17 + (n * 3) % 47)];
+        let pickv = (n + bytes[n / 2] as usize + bytes[n - 1] as usize) % 4;
+        for (sink, repl, cap) in [variants[pickv]] {
+            let mut h = DecHistory::simple(enc, BomMode::None, sink, repl, bytes);
+            h.caps = vec![cap];
+            let out = drv.run(&h);
+            let route = format!("{} -> {} through a {}-unit output buffer", if repl { "with replacement" } else { "without replacement" }, sink.name(), cap);
+            if let Some(f) = out.first_fault(&[FaultKind::Panic, FaultKind::Range, FaultKind::Valid, FaultKind::Bounds]) {
+                return Some(format!("[{}] {}", route, f.msg));
+            }
+            if !out.completed {
+                return Some(format!("[{}] stream did not complete: {:?}", route, out.faults.first().map(|f| f.msg.clone())));
+            }
+            let got = match out.scalars(sink) {
+                Some(s) => s,
+                None => return Some(format!("[{}] output is not well-formed", route)),
+            };
+            if got != want_scalars {
+                return Some(format!("[{}] scalars differ: crate [{}] Standard [{}]", route, fw::hex32(&got), fw::hex32(&want_scalars)));
+            }
+            if repl {
+                if out.had_errors != !want_errors.is_empty() {
+                    return Some(format!("[{}] had_errors = {} but the Standard's decoder reports {} error(s)", route, out.had_errors, want_errors.len()));
+                }
+            } else if out.errors != want_errors {
+                return Some(format!("[{}] malformed-sequence reports differ: crate (start,len) {:?}; Standard {:?}", route, out.errors, want_errors));
+            }
+        }
+    }
     if algo == Algo::Utf8 {
         // second, independent oracle for UTF-8
         let lossy = String::from_utf8_lossy(bytes);
@@ -179,6 +214,7 @@ pub fn run(ctx: &Ctx) -> i32 {
 fn structured(ctx: &Ctx) -> Stats {
     let thorough = ctx.tier == fw::Tier::Thorough;
     let mut total = Stats::new();
+    let t_fam = Instant::now();
     // EUC-JP: all 8F xx yy ; lead trail class
     let st = par_run(ctx, 256, |x, st| {
         let mut drv = DecDriver::new();
@@ -196,6 +232,7 @@ fn structured(ctx: &Ctx) -> Stats {
         }
     });
     total.merge(st);
+    if std::env::var("VERIF_TIMING").is_ok() { eprintln!("[timing] C01 structured family 1 done at {:.1}s", t_fam.elapsed().as_secs_f64()); }
     total.exhaustive.push("EUC-JP: all 8F xx yy".into());
     if fw::should_stop() {
         return total;
@@ -214,6 +251,7 @@ fn structured(ctx: &Ctx) -> Stats {
         }
     });
     total.merge(st);
+    if std::env::var("VERIF_TIMING").is_ok() { eprintln!("[timing] C01 structured family 2 done at {:.1}s", t_fam.elapsed().as_secs_f64()); }
     if fw::should_stop() {
         return total;
     }
@@ -245,6 +283,7 @@ fn structured(ctx: &Ctx) -> Stats {
         }
     });
     total.merge(st);
+    if std::env::var("VERIF_TIMING").is_ok() { eprintln!("[timing] C01 structured family 3 done at {:.1}s", t_fam.elapsed().as_secs_f64()); }
     if thorough {
         total.exhaustive.push("gb18030 and GBK: complete well-formed four-byte space (126x10x126x10)".into());
     } else {
@@ -277,6 +316,7 @@ fn structured(ctx: &Ctx) -> Stats {
         }
     });
     total.merge(st);
+    if std::env::var("VERIF_TIMING").is_ok() { eprintln!("[timing] C01 structured family 4 done at {:.1}s", t_fam.elapsed().as_secs_f64()); }
     if thorough {
         total.exhaustive.push("UTF-8: every 3-byte string".into());
     }
@@ -307,6 +347,7 @@ fn structured(ctx: &Ctx) -> Stats {
         }
     });
     total.merge(st);
+    if std::env::var("VERIF_TIMING").is_ok() { eprintln!("[timing] C01 structured family 5 done at {:.1}s", t_fam.elapsed().as_secs_f64()); }
     total.exhaustive.push("ISO-2022-JP: all strings of length 2..=5 over the 14-byte alphabet {1B 24 28 40 42 4A 49 41 21 5C 7E 0E 80 0A}".into());
     if fw::should_stop() {
         return total;
@@ -327,6 +368,7 @@ fn structured(ctx: &Ctx) -> Stats {
         }
     });
     total.merge(st);
+    if std::env::var("VERIF_TIMING").is_ok() { eprintln!("[timing] C01 structured family 6 done at {:.1}s", t_fam.elapsed().as_secs_f64()); }
     total.exhaustive.push("ISO-2022-JP: after each of the five escapes, all byte pairs 1F..=80 x 1F..=80".into());
     if fw::should_stop() {
         return total;
@@ -376,6 +418,7 @@ fn structured(ctx: &Ctx) -> Stats {
         }
     });
     total.merge(st);
+    if std::env::var("VERIF_TIMING").is_ok() { eprintln!("[timing] C01 structured family 7 done at {:.1}s", t_fam.elapsed().as_secs_f64()); }
     total.exhaustive.push("UTF-16LE/BE: all strings of 1..=3 code units over 14 surrogate-class units, with 0 or 1 trailing byte".into());
     if fw::should_stop() {
         return total;
@@ -441,6 +484,67 @@ fn structured(ctx: &Ctx) -> Stats {
         }
     });
     total.merge(st);
+    if std::env::var("VERIF_TIMING").is_ok() { eprintln!("[timing] C01 structured family 8 done at {:.1}s", t_fam.elapsed().as_secs_f64()); }
+    if !fw::should_stop() {
+        // uniform runs: k copies of one unit (and k copies of unit + ASCII) between ASCII runs - a
+        // vector kernel decides per 8 / 16 lanes, so "all lanes special in the same way" is a
+        // case of its own (e.g. eight U+3000 in UTF-16BE, whose bytes also read as Basic Latin
+        // when the swap is forgotten)
+        const ULANES: usize = 6;
+        let st = par_run(ctx, all.len() * ULANES, |part, st| {
+            let enc = all[part / ULANES];
+            let ulane = part % ULANES;
+            let algo = model_dec::algo_for(enc);
+            let mut units: Vec<Vec<u8>> = crate::hist::atoms(algo).into_iter().filter(|a| a.iter().any(|b| *b >= 0x80 || *b == 0x1B)).collect();
+            if let Algo::Utf16(be) = algo {
+                units.clear();
+                for u in [0x0100u16, 0x3000, 0x4E00, 0x7F00, 0x2000, 0x0080, 0x00FF, 0xFF00, 0xFFFD, 0xD800, 0xDC00, 0x0061, 0x6100, 0xD83D, 0xDE00] {
+                    units.push(if be { vec![(u >> 8) as u8, u as u8] } else { vec![u as u8, (u >> 8) as u8] });
+                }
+                units.push(if be { vec![0xD8, 0x3D, 0xDE, 0x00] } else { vec![0x3D, 0xD8, 0x00, 0xDE] });
+            }
+            let ascii = |v: &mut Vec<u8>, n: usize| {
+                for i in 0..n {
+                    let c = b'a' + (i % 26) as u8;
+                    match algo {
+                        Algo::Utf16(true) => v.extend_from_slice(&[0, c]),
+                        Algo::Utf16(false) => v.extend_from_slice(&[c, 0]),
+                        _ => v.push(c),
+                    }
+                }
+            };
+            let mut drv = DecDriver::new();
+            for (xi, x) in units.iter().enumerate() {
+                if xi % ULANES != ulane {
+                    continue;
+                }
+                if fw::should_stop() {
+                    return;
+                }
+                for p in [0usize, 1, 8, 15, 16] {
+                    for k in [2usize, 7, 8, 9, 15, 16, 17, 32, 33] {
+                        for t in [0usize, 1, 17] {
+                            for alt in [false, true] {
+                                let mut v = Vec::with_capacity(256);
+                                ascii(&mut v, p);
+                                for _ in 0..k {
+                                    v.extend_from_slice(x);
+                                    if alt {
+                                        ascii(&mut v, 1);
+                                    }
+                                }
+                                ascii(&mut v, t);
+                                record(enc, algo, &v, &mut drv, st, true, "uniform-run-of-one-unit");
+                            }
+                        }
+                    }
+                }
+            }
+        });
+        total.merge(st);
+    if std::env::var("VERIF_TIMING").is_ok() { eprintln!("[timing] C01 structured family 9 done at {:.1}s", t_fam.elapsed().as_secs_f64()); }
+        total.exhaustive.push("per encoding: runs of 2..=33 copies of one non-ASCII atom (UTF-16: 16 units incl. U+XX00 forms), plain and interleaved with ASCII, after 0/1/8/15/16 and before 0/1/17 ASCII units".into());
+    }
     total.exhaustive.push("per encoding: two non-ASCII atoms inside an ASCII run - first at every offset 0..=33, second at every distance 1..=40, 47..49, 63..65, 127..129 - with tails of 0/3/16/35 units".into());
     total
 }
